@@ -10,6 +10,9 @@ TB = ("trusted base: encoding/json/strconv/unicode/utf8/math/big of the building
       "verdict covers only the executions produced (seeded case lists), JIT/native code is observed through results and faults only")
 
 CHECKS = {
+ "C01": dict(level="exploration", design="§4 C01",
+   text="Seeded differential monitoring of Unmarshal against encoding/json over freshly compiled decoder programs: random reflect-built types mixed with a catalogue of ~40 named types with (un)marshaling methods, recursive types, embedding and tag edge cases; documents are encoding/json output of random values re-emitted with labelled mutations (exact-agreement regime) plus arbitrary edits (two-bound regime of the leniency clause); six configurations (ConfigStd, ConfigDefault, UseNumber, UseInt64); a third of the cases decode into a pre-populated destination; deep compare distinguishes float bits, nil vs empty, json.Number text.",
+   technique="runtime differential monitor vs encoding/json with type-directed document generation and labelled mutations; waiver predicates for listed findings"),
  "C02": dict(level="exploration", design="§4 C02",
    text="Seeded + enumerated monitoring of 25+ JSON-consuming entry points against the two bounds of the property (json.Valid => accept up to 4095 levels; accept => StructOK, a reference structural validator that does not judge string contents): SIMD block sweep (every critical byte at every block offset), unterminated strings of every length, seeded random/mutated/truncated documents, token soups, number spellings, nesting around the limit; avx2, sse and optdec processes.",
    technique="runtime two-bound oracle (encoding/json.Valid above, reference structural validator below) over enumerated block sweeps and seeded mutations; captured bytes of RawMessage/Unmarshaler re-validated"),
